@@ -270,10 +270,15 @@ def writer(out, steps, wrote=None):
     return gen
 
 
-def sink(inp, received, echo_to=None, chunk=4096, on_eof='exit', delay_us=0):
-    """Reads everything from inp, records it; optionally echoes to echo_to."""
+def sink(inp, received, echo_to=None, chunk=4096, on_eof='exit', delay_us=0, stall_after=None):
+    """Reads everything from inp, records it; optionally echoes to echo_to.  With stall_after=N it stops reading
+    for good once N bytes have arrived (a peer that is alive but no longer drains its socket)."""
     def gen(a):
+        total = 0
         while True:
+            if stall_after is not None and total >= stall_after:
+                while True:
+                    yield ('pause',)
             try:
                 d = yield ('read', inp, chunk)
             except OSError:
@@ -281,6 +286,7 @@ def sink(inp, received, echo_to=None, chunk=4096, on_eof='exit', delay_us=0):
             if not d:
                 break
             received.append(d)
+            total += len(d)
             a.rec('r', d)
             if delay_us:
                 yield ('sleep', delay_us)
